@@ -195,6 +195,12 @@ func (P *Parser) Error(err error, scanner Scanner) (recovered bool, errorAttrib 
 		errorAttrib.ExpectedTokens = append(errorAttrib.ExpectedTokens, P.tokenMap.TokenString(t))
 	}
 
+	if !P.actTab[P.stack.Top()].canRecover {
+		// No state on the stack is a recovery state. In gocc's own grammar "error" is an
+		// ordinary keyword terminal, not a recovery symbol: a state that can shift the keyword
+		// must not be used to resume after a syntax error.
+		return
+	}
 	action, ok := P.actTab[P.stack.Top()].Actions[P.tokenMap.Type("error")]
 	if !ok {
 		return
